@@ -5,6 +5,8 @@ import XPathV.Lemmas.Facts
 import XPathV.Lemmas.ParserGrammar
 import XPathV.Lemmas.ParserFull
 import XPathV.Lemmas.FullGrammarComplete
+import XPathV.Lemmas.Whitespace
+import XPathV.Lemmas.Abbrev
 /-!
 # C10 — expressions parse with XPath 1.0 precedence, associativity and token rules
 -/
@@ -199,5 +201,94 @@ theorem C10_grammar_tree_is_parsed {ns : Option NsMap} {text : List Char} {toks 
     (htoks : tokVsRel text toks) (hg : Parses ns toks b) (hdepth : nesting b < 200) :
     ∃ a, parse (fuelFor text) (defaultCfg ns) text = .ok a ∧ normConv a = normConv b :=
   full_complete htoks (refParseFull_complete hg) hdepth
+
+/-! ## Second clause: optional whitespace (`Lemmas/Whitespace*`)
+
+`LexPrefix u v` ("`(u, v)` is a token boundary of `u ++ v`"): `u` is blanks, then complete scanner items each
+followed by blanks (`Lexeme`: every kind of token, with the scanner's look-ahead over blanks for `(` and `::`), or
+ends in the blanks between an axis name and its `::`.  `scan_positions_are_boundaries`: on ASCII texts every position
+the scanner stops at is such a boundary.  `Blank ws`: the characters `skipSpace` skips. -/
+section WhitespaceClause
+open XPathV.Whitespace XPathV.Bridge XPathV.Spec.Full XPathV.Lemmas.ParserFull
+
+/-- **inserting (or, read right to left, removing) blanks at a token boundary leaves the scanner's token stream
+unchanged** — both `some` of the same list, or both rejected -/
+theorem C10_whitespace_token_stream {u v ws : List Char} (hb : LexPrefix u v) (hws : Blank ws) (ha : AsciiHead ws) :
+    tokVs (u ++ ws ++ v) = tokVs (u ++ v) :=
+  tokVs_insert_blanks hb hws ha
+
+/-- **… and the parser returns the very same tree** (syntactic equality, every fuel, every configuration, whether
+or not the text is in the XPath 1.0 grammar) -/
+theorem C10_whitespace_same_tree {u v ws : List Char} (hb : LexPrefix u v) (hws : Blank ws) (ha : AsciiHead ws)
+    (fuel : Nat) (cfg : PCfg) (a : Ast) :
+    parse fuel cfg (u ++ ws ++ v) = .ok a ↔ parse fuel cfg (u ++ v) = .ok a :=
+  parse_insert_blanks hb hws ha fuel cfg a
+
+/-- the same with the fuel `Compile` uses for each of the two texts -/
+theorem C10_whitespace_same_tree_compile {u v ws : List Char} (hb : LexPrefix u v) (hws : Blank ws)
+    (ha : AsciiHead ws) (ns : Option NsMap) (a : Ast) :
+    parse (fuelFor (u ++ ws ++ v)) (defaultCfg ns) (u ++ ws ++ v) = .ok a ↔
+      parse (fuelFor (u ++ v)) (defaultCfg ns) (u ++ v) = .ok a :=
+  parse_insert_blanks_fuelFor hb hws ha ns a
+
+/-- for expressions of the grammar: same token stream, one tree for both texts, and it is the grammar's -/
+theorem C10_whitespace_grammar_tree {ns : Option NsMap} {u v ws : List Char} {toks : List TokV} {b : Ast}
+    (hb : LexPrefix u v) (hws : Blank ws) (ha : AsciiHead ws)
+    (ht : tokVs (u ++ v) = some toks) (hp : Parses ns toks b) (hd : nesting b < 200) :
+    tokVs (u ++ ws ++ v) = some toks ∧
+    ∃ a, parse (fuelFor (u ++ v)) (defaultCfg ns) (u ++ v) = .ok a ∧
+      parse (fuelFor (u ++ ws ++ v)) (defaultCfg ns) (u ++ ws ++ v) = .ok a ∧ normConv a = normConv b :=
+  whitespace_insertion_preserves_tree hb hws ha ht hp hd
+
+/-- the boundaries are all the positions between tokens: on an ASCII text, wherever the scanner stands after any
+number of items, the text splits there into a boundary (and so does every split inside the blanks that follow) -/
+theorem C10_scanner_positions_are_boundaries {text : List Char} (hasc : Ascii text) {s : Scan}
+    (h : Items (BuildRejects.start text) s) :
+    ∃ u w, text = u ++ w ∧ (Lemmas.ScanTail.At w s ∨ Lemmas.ScanTail.At (w.dropWhile isSpace) s) ∧
+      ∀ b v, w = b ++ v → Blank b → LexPrefix (u ++ b) v :=
+  scan_positions_are_boundaries hasc h
+
+end WhitespaceClause
+
+/-! ## Third clause: each abbreviation means its expansion (`Lemmas/Abbrev*`)
+
+`expandWith sel` writes out the abbreviations at the selected token positions of a `TokV` stream — `@` ↦ `attribute::`,
+`.` ↦ `self::node()`, `..` ↦ `parent::node()`, `//` ↦ `/descendant-or-self::node()/`, a name test without axis ↦ `child::`
+in front — following the §3.7 classification; `expandAbbrev` all of them, `Expands toks toks'` some of them. -/
+section AbbreviationClause
+open XPathV.Lemmas.Abbrev XPathV.Bridge XPathV.Spec.Full XPathV.Lemmas.ParserFull
+
+/-- **grammar level: the written-out stream derives the same tree** (exactly the same, no representation
+convention involved) -/
+theorem C10_abbreviation_grammar {ns : Option NsMap} {toks toks' : List TokV} {a : Ast}
+    (h : Parses ns toks a) (hx : Expands toks toks') : Parses ns toks' a :=
+  Parses_of_Expands h hx
+
+/-- every abbreviation written out: none of `@ . .. //` is left, and the tree is the same -/
+theorem C10_abbreviation_all {ns : Option NsMap} {toks : List TokV} {a : Ast} (h : Parses ns toks a) :
+    Parses ns (expandAbbrev toks) a ∧
+    ∀ t ∈ expandAbbrev toks, t ≠ TokV.at ∧ t ≠ .dot ∧ t ≠ .dotdot ∧ t ≠ .slashslash :=
+  ⟨Parses_expandAbbrev h, expandAbbrev_no_abbrev_tok toks⟩
+
+/-- the four token abbreviations, one occurrence each, stated on the streams themselves -/
+theorem C10_abbreviation_each {ns : Option NsMap} {pre post : List TokV} {a : Ast} :
+    (Parses ns (pre ++ .at :: post) a → Parses ns (pre ++ [.axis "attribute"] ++ post) a) ∧
+    (Parses ns (pre ++ .dot :: post) a → Parses ns (pre ++ nodeT "self" ++ post) a) ∧
+    (Parses ns (pre ++ .dotdot :: post) a → Parses ns (pre ++ nodeT "parent" ++ post) a) ∧
+    (Parses ns (pre ++ .slashslash :: post) a → Parses ns (pre ++ dosT ++ post) a) :=
+  ⟨Parses_at, Parses_dot, Parses_dotdot, Parses_slashslash⟩
+
+/-- **model parser: an expression and its written-out form are both accepted, with trees equal up to the
+representation conventions** (`normConv`: the parser leaves `prop = ""` in the step it makes for `.`, `..`, `//` and
+keeps the spelling `//` in the root node) -/
+theorem C10_abbreviation_parser {ns : Option NsMap} {text text' : List Char} {toks toks' : List TokV} {b : Ast}
+    (ht : tokVsRel text toks) (ht' : tokVsRel text' toks') (hx : Expands toks toks')
+    (hp : Parses ns toks b) (hd : nesting b < 200) :
+    ∃ a a', parse (fuelFor text) (defaultCfg ns) text = .ok a ∧
+      parse (fuelFor text') (defaultCfg ns) text' = .ok a' ∧
+      normConv a = normConv a' ∧ normConv a = normConv b :=
+  model_expand ht ht' hx hp hd
+
+end AbbreviationClause
 
 end XPathV.Theorems.C10
